@@ -65,6 +65,24 @@ func implBits(b uint32) string {
 // depend on them; when one does, the replay needs them.
 var c19Recent []uint32
 
+type c19Hold struct {
+	bits                 uint32
+	work, target         *big.Int
+	wantWork, wantTarget string
+}
+
+var c19Held []c19Hold
+
+// c19Str renders a big integer; a value whose internals were overwritten by a later computation can make math/big panic
+func c19Str(x *big.Int) (s string) {
+	defer func() {
+		if r := recover(); r != nil {
+			s = fmt.Sprint("unusable value (math/big panics: ", r, ")")
+		}
+	}()
+	return x.String()
+}
+
 func c19CheckBits(c *Ctx, b uint32) {
 	t := refTarget(b)
 	want := fmt.Sprintf("%s %s", t.String(), refWork(t).String())
@@ -82,6 +100,21 @@ func c19CheckBits(c *Ctx, b uint32) {
 	c19Recent = append(c19Recent, b)
 	if len(c19Recent) > 6 {
 		c19Recent = c19Recent[1:]
+	}
+	// results handed out earlier must keep their value while later ones are computed (a header keeps its work object)
+	wk, tg := domains.CalculateWork(b).BigInt(), domains.CompactToBig(b)
+	for _, h := range c19Held {
+		if c19Str(h.work) != h.wantWork || c19Str(h.target) != h.wantTarget {
+			c.R.Fail(lib.Failure{Case: fmt.Sprintf("bits %d held", h.bits), Ops: []string{fmt.Sprintf("bits %d", h.bits), fmt.Sprintf("bits %d", b)},
+				What:     "a result returned earlier changed its value after a later evaluation (results share storage)",
+				Expected: h.wantTarget + " " + h.wantWork, Observed: c19Str(h.target) + " " + c19Str(h.work), Signature: "c19-result-mutated-later"})
+			c19Held = nil
+			break
+		}
+	}
+	c19Held = append(c19Held, c19Hold{b, wk, tg, refWork(t).String(), t.String()})
+	if len(c19Held) > 4 {
+		c19Held = c19Held[1:]
 	}
 }
 
